@@ -83,8 +83,16 @@ def coqc_build(ctx, gdir, name, timeout=600):
 
 GEN_OBLIGATIONS = """From Coq Require Import ZArith List String Bool.
 Import ListNotations.
-From TK Require Import Par_Model Par_Spec Par_Region_Model Par_Region_Proof.
+From TK Require Import Par_Model Par_Spec Par_Region_Model Par_Region_Proof Par_Fill_Model.
 From CUR Require Import OmpCur.
+Local Open Scope string_scope.
+Definition is_sym_region (r : region) : bool :=
+  contains "compute_distance_matrix" (r_name r) || contains "compute_diffusion_matrix" (r_name r) ||
+  contains "matrix_from_callback" (r_name r).
+Lemma gen_sym_shapes :
+  Forall (fun r => map acc_shape (r_shared r) = map acc_shape (sym_accs ""))
+         (filter is_sym_region regions).
+Proof. vm_compute. repeat constructor. Qed.
 Lemma gen_regions_ok : forallb check_region regions = true.
 Proof. vm_compute. reflexivity. Qed.
 Lemma gen_hlle_is_expected :
@@ -181,6 +189,67 @@ def gen_cases(ctx, quick):
     return cases
 
 
+# ----------------------------------------------------------------------------- closed form of the symmetric fill
+M64 = (1 << 64) - 1
+
+
+def _lcg(state):
+    state[0] = (state[0] * 6364136223846793005 + 1442695040888963407) & M64
+    return state[0] >> 33
+
+
+def case_data(c):
+    """the points harness/c15.cpp generates for this case (same generator, same double operations)"""
+    st = [(c["seed"] * 2654435761 + 12345) & M64]
+    xs = []
+    for _ in range(c["N"] * c["dim"]):
+        v = _lcg(st)
+        xs.append(float(int(v % 41) - 20) if c["int"] else (float(v % 2000001) - 1e6) / 7e4)
+    return xs
+
+
+def case_landmarks(c):
+    N = c["N"]
+    lm = [((i * 7 + c["seed"]) % N) for i in range(min(c["L"], N))]
+    used = [False] * N
+    for i, v in enumerate(lm):
+        while used[v]:
+            v = (v + 1) % N
+        used[v] = True
+        lm[i] = v
+    return lm
+
+
+def sym_expected(c):
+    """row-major expected matrix of mds / mdsl / cli: entry (a,b) = f(min(a,b), max(a,b))"""
+    import math
+    xs, dim = case_data(c), c["dim"]
+
+    def dist(a, b):
+        s = 0.0
+        for q in range(dim):
+            t = xs[a * dim + q] - xs[b * dim + q]
+            s += t * t
+        return math.sqrt(s)
+
+    def kern(a, b):
+        s = 0.0
+        for q in range(dim):
+            s += xs[a * dim + q] * xs[b * dim + q]
+        return s
+    if c["region"] == "mds":
+        pts = list(range(c["N"]))
+        f = lambda i, j: (lambda d: d * d)(dist(pts[i], pts[j]))
+    elif c["region"] == "mdsl":
+        pts = case_landmarks(c)
+        f = lambda i, j: (lambda d: d * d)(dist(pts[i], pts[j]))
+    else:
+        pts = list(range(c["N"]))
+        f = lambda i, j: kern(pts[i], pts[j]) + 0.25 * dist(pts[i], pts[j])
+    n = len(pts)
+    return [f(min(a, b), max(a, b)) for a in range(n) for b in range(n)]
+
+
 def case_line(c):
     return "CASE %d %s %d %d %d %d %d %d %d\n" % (c["id"], c["region"], c["N"], c["k"], c["d"], c["L"], c["dim"],
                                                c["seed"], c["int"])
@@ -206,6 +275,9 @@ def run_cases(ctx, exe, cases, combos, timeout=900, env=None):
                                                     "n": int(w[6]), "maxd": float.fromhex(w[7]) if w[7] not in ("inf", "nan", "-nan") else float("inf"),
                                                     "maxr": float.fromhex(w[8]) if w[8] not in ("inf", "nan", "-nan") else float("inf"),
                                                     "nonfinite": int(w[9])})
+                elif w[0] == "V" and int(w[1]) in res:
+                    res[int(w[1])]["values"] = [float.fromhex(x) if x not in ("inf", "-inf", "nan", "-nan") else float("nan")
+                                                for x in w[3:3 + int(w[2])]]
                 elif w[0] == "X" and int(w[1]) in res:
                     res[int(w[1])]["diffs"].append(" ".join(w[2:]))
                 elif w[0] == "E" and int(w[1]) in res:
@@ -243,6 +315,24 @@ def judge(ctx, cases, res, combos, stats):
             continue
         n_eval += len(r["rows"])
         ref = r["rows"][0]
+        if "values" in r and c["region"] in ("mds", "mdsl", "cli"):
+            exp = sym_expected(c)
+            stats["closed_form_checked"] = stats.get("closed_form_checked", 0) + 1
+            got = r["values"]
+            badi = None if len(got) == len(exp) else -1
+            if badi is None:
+                for q, (g, e) in enumerate(zip(got, exp)):
+                    if g != e:
+                        badi = q
+                        break
+            if badi is not None:
+                nn = int(round(len(exp) ** 0.5)) or 1
+                ctx.violation(dict(c, combos=combos[:1]),
+                              "%s: single-threaded result is not the symmetric matrix f(min(a,b),max(a,b)) of the "
+                              "callback values: entry (%d,%d) is %r, expected %r" % (
+                                  c["region"], badi // nn, badi % nn, got[badi] if 0 <= badi < len(got) else None,
+                                  exp[badi] if 0 <= badi < len(exp) else None))
+                continue
         for row in r["rows"][1:]:
             bad = None
             if row["n"] != ref["n"]:
@@ -263,6 +353,91 @@ def judge(ctx, cases, res, combos, stats):
                                   c["region"], row["t"], row["k"], row["c"], bad, "; ".join(r["diffs"][:3])))
                 break
     return n_eval
+
+
+EMBED_DENSE = ("isomap", "lisomap", "mds", "lmds", "dm")
+EMBED_SPARSE = ("klle", "kltsa", "hlle")
+EMBED_TOL_DENSE = 1e-10      # Gram matrix of the embedding, relative to its largest entry
+EMBED_TOL_SPARSE = 1e-5      # tolerance stream: null-space eigenproblems amplify the re-association of the
+                             # triplet sums by their conditioning (measured: 1e-11 .. 5e-9)
+
+
+def embed_runs(ctx, stats):
+    """thorough tier: whole methods through tapkee::embed under the thread/schedule combinations; the Gram
+    matrix E E^T of the embedding (free of eigenvector sign / rotation inside multiple eigenvalues) is compared"""
+    exe = ctx.cpp("harness/c15_embed.cpp", defines=["nowait=schedule(runtime) nowait"], timeout=1500)
+    combos = ["1:1:0", "2:1:0", "3:2:1", "8:2:1", "16:3:0", "16:1:1"]
+    rng = ctx.rng
+    cases = []
+    for m in EMBED_DENSE + EMBED_SPARSE:
+        for N in (24, 60, 150):
+            d = rng.choice([1, 2]) if m != "hlle" else rng.choice([1, 2])
+            k = {1: 6, 2: 9}[d] + rng.choice([0, 2]) if m == "hlle" else rng.choice([6, 8, 10])
+            cases.append({"kind": "embed", "id": len(cases), "method": m, "N": N, "D": 3, "k": k, "d": d,
+                          "seed": rng.randrange(1, 10 ** 6)})
+    inp = "COMBOS " + " ".join(combos) + "\n" + "".join(
+        "CASE %d %s %d %d %d %d %d\n" % (c["id"], c["method"], c["N"], c["D"], c["k"], c["d"], c["seed"]) for c in cases)
+    todo = list(cases)
+    rows = {c["id"]: [] for c in cases}
+    ended = set()
+    crashed = {}
+    while todo:
+        inp = "COMBOS " + " ".join(combos) + "\n" + "".join(
+            "CASE %d %s %d %d %d %d %d\n" % (c["id"], c["method"], c["N"], c["D"], c["k"], c["d"], c["seed"]) for c in todo)
+        r = ctx.run(exe, inp, timeout=900)
+        cur = None
+        for line in r.out.splitlines():
+            w = line.split()
+            try:
+                if w and w[0] == "C":
+                    cur = int(w[1])
+                elif w and w[0] == "R" and int(w[1]) in rows:
+                    rows[int(w[1])].append(w[2:])
+                elif w and w[0] == "E":
+                    ended.add(int(w[1]))
+            except (ValueError, IndexError):
+                continue
+        if r.rc == 0 and not r.timed_out:
+            break
+        ids = [c["id"] for c in todo]
+        if cur is None or cur not in ids:
+            cur = ids[0]
+        crashed[cur] = "timeout" if r.timed_out else (r.sanitizer or r.err[-600:] or "rc=%d" % r.rc)
+        todo = todo[ids.index(cur) + 1:]
+    n = 0
+    worst = {}
+    for c in cases:
+        if c["id"] in crashed:
+            ctx.violation(dict(c, combos=combos), "tapkee::embed aborts / hangs under some thread count: " + crashed[c["id"]][:600])
+            continue
+        rs = rows[c["id"]]
+        if c["id"] not in ended or len(rs) != len(combos):
+            ctx.violation(dict(c, combos=combos), "incomplete output of the embedding harness for this case")
+            continue
+        n += len(rs)
+        if any(len(w) >= 4 and w[3] == "EXC" for w in rs):
+            kinds = {" ".join(w[3:]) for w in rs}
+            if len(kinds) > 1:
+                ctx.violation(dict(c, combos=combos), "the outcome of embed (exception or not) depends on the thread count: %s" % sorted(kinds))
+            else:
+                stats["embed_exceptions"] = stats.get("embed_exceptions", 0) + 1
+            continue
+        tol = EMBED_TOL_DENSE if c["method"] in EMBED_DENSE else EMBED_TOL_SPARSE
+        for w in rs[1:]:
+            try:
+                maxd, maxr, nonfin = float.fromhex(w[5]), float.fromhex(w[6]), int(w[7])
+            except (ValueError, IndexError):
+                maxd, maxr, nonfin = float("inf"), 1.0, 0
+            rel = maxd / max(maxr, 1e-300)
+            worst[c["method"]] = max(worst.get(c["method"], 0.0), rel)
+            if not (rel <= tol) or (w[3:5] != rs[0][3:5]):
+                ctx.violation(dict(c, combos=combos),
+                              "embedding of %s differs between 1 thread and threads=%s schedule=%s chunk=%s: Gram matrix "
+                              "relative difference %.3g (allowed %.0e)" % (c["method"], w[0], w[1], w[2], rel, tol))
+                break
+    stats["embed_worst_relative_gram_difference"] = {k: float("%.3g" % v) for k, v in worst.items()}
+    stats["embed_cases"] = len(cases)
+    return n
 
 
 def tsan_build(ctx):
@@ -442,6 +617,7 @@ def run(ctx):
     th = threading.Thread(target=_build)
     th.start()
     coq = ctx.coq()
+    stats["t_coq_s"] = round(ctx.elapsed(), 1)
     tr, text, err = regenerate(ctx)
     committed = ""
     try:
@@ -467,6 +643,7 @@ def run(ctx):
     if "err" in built:
         raise built["err"]
     exe = built["exe"]
+    stats["t_build_done_s"] = round(ctx.elapsed(), 1)
     cases = []
     hist = {"corpus": 0}
     for name, c in ctx.corpus():
@@ -477,6 +654,7 @@ def run(ctx):
     cases += gen_cases(ctx, quick)
     res = run_cases(ctx, exe, cases, combos, timeout=1500 if not quick else 600)
     n_eval = judge(ctx, cases, res, combos, stats)
+    stats["t_runs_done_s"] = round(ctx.elapsed(), 1)
     if not table_ok and tr is not None and det.get("regions") is not None:
         search(ctx, exe, det, tr, stats)
         if not ctx.has_violation() and not ctx._unshown:
@@ -484,6 +662,12 @@ def run(ctx):
     elif not table_ok and not ctx._unshown:
         ctx.unshown("obligations on the regenerated region table could not be evaluated: "
                     + str(det.get("search_error", det.get("obligation_error", "")))[:600])
+    n_embed = 0
+    if not quick and not ctx.has_violation():
+        n_embed = embed_runs(ctx, stats)
+        stats["translator_self_test_ok"] = bool(t_omp.self_test(ctx.repo, quiet=True))
+        if not stats["translator_self_test_ok"]:
+            ctx.unshown("translator self-test: a seeded mutation of the source did not change the translator's output")
     tsan = {"available": False}
     if not quick and not ctx.has_violation():
         texe = tsan_build(ctx)
@@ -504,7 +688,7 @@ def run(ctx):
     distinct = {hashlib.sha1(json.dumps([c[k] for k in ("region", "N", "k", "d", "L", "dim", "seed", "int")]).encode()).hexdigest()
                 for c in cases if c["N"] >= 3 and res[c["id"]]["ended"]}
     ctx.finish(
-        evaluations=n_eval + stats.get("search_runs", 0), distinct_nontrivial=len(distinct),
+        evaluations=n_eval + n_embed + stats.get("search_runs", 0), distinct_nontrivial=len(distinct),
         rule="one evaluation = one execution of one OpenMP region under one (threads, schedule kind, chunk) "
              "combination, compared entrywise with the single-threaded execution of the same input (dense results: "
              "bit-identical; sparse weight matrices: max abs diff <= 1e-10 x largest entry); case counts are fixed by "
